@@ -292,7 +292,11 @@ def h4_capacity(prog, ctx):
             sep = "->" if lhs.strip().j.get("arrow") else "."
             r9 = rhs.strip()
             pre_inc = r9.k == "UnaryOperator" and r9.j.get("op") == "++" and not r9.j.get("postfix", False) and render(r9.children[0]) == "%s%slength" % (obj, sep)
-            if render(rhs) in lens or render(rhs) == "%s%slength" % (obj, sep) or pre_inc:
+            # capacity = length + 1 with the count stepped right after (`cap = length + 1; ... return &array[length++];`)
+            post_inc = render(rhs) == "%s%slength + 1" % (obj, sep) and any(
+                k2 == "++" and st2.j.get("op") == "++" and render(l2) == "%s%slength" % (obj, sep) and f.cfg.must_pass(st, st2) is not None and (
+                    f.cfg.block_of(st2) in f.cfg.reachable(f.cfg.block_of(st))) for l2, r2, st2, k2 in query.stores(f))
+            if render(rhs) in lens or render(rhs) == "%s%slength" % (obj, sep) or pre_inc or post_inc:
                 ctx.ok("H4", inst, st.where, "capacity = number of entries stored (%s)" % render(rhs))
                 continue
             # surplus slots initialised by a loop over [.., capacity)
